@@ -31,7 +31,7 @@ ASSUMPTIONS = [
 @st.composite
 def strategy_impl(draw, tier):
     max_n = 5 if tier == "quick" else 8
-    axes = draw(gen.layouts(max_n=max_n, max_cells=250 if tier == "quick" else 600, allow_default_shifts=False))
+    axes = draw(gen.layouts(max_n=max_n, max_cells=250 if tier == "quick" else 600, allow_default_shifts=False, big_n=True))
     names = [a["name"] for a in axes]
     by_name = {a["name"]: a for a in axes}
     padded = draw(st.lists(st.sampled_from(names), min_size=1, max_size=len(names), unique=True))
